@@ -39,7 +39,7 @@ ESCAPED_STRINGS = ['"\\u0030x10"', '"0\\u007810"', '"\\u0031\\u0032"', '"0x\\u00
 NEAR_53 = ["9007199254740991.0", "9007199254740990.0", "9007199254740989.0", "9.007199254740991e15", "900719925474099.1e1",
            "90071992547409910e-1", "4503599627370497.0", "4503599627370495.0", "8765432109876543.0", "9007199254740991e0",
            "7205759403792793.0", "6755399441055743.0", "1234567890123457.0", "0.9007199254740991e16", "9007199254740.991e3"]
-STRINGS_BAD = ["", "0x", "12z", "0xg1", "hello", "1.5", "-1", "-0x1", "-255", "0x-1", str(U256_MAX + 1), "0x1" + "0" * 64, "1,000", "ten",
+STRINGS_BAD = ["", "0x", "12z", "0xg1", "hello", "1.5", "-1", "-0x1", "-255", "0x-1", "0x+a", "0x+00ff", "0x+", "0x-", "-0x+1", str(U256_MAX + 1), "0x1" + "0" * 64, "1,000", "ten",
                "0x12 34", "NaN", "Infinity", "-0x", "0xx1", "12.0", "1.50"]
 STRINGS_EITHER = ["+1", "007", "0b11", "0o7", "0X1f", "1_000", " 1", "1 ", "0x00ff", "1e3", "abc", "-0", "+0x1", "0x0000"]
 KINDS_BAD = ["true", "false", "[]", "{}", "[1]", '{"a":1}', "[[]]"]
